@@ -740,6 +740,16 @@ theorem node_find_pi (compound : Bool) (n : KvNode.Node) (h : KvNode.NodeInv com
     KvNode.Found (fun i => KvNode.cmpOf compound k c (KvNode.keyAt n i)) n.pnum (KvNode.findPi n (KvNode.cmpOf compound k c)) :=
   (KvNode.found_findPi h k c).1
 
+/-- **Found means present**: on a node satisfying the invariant `_sblk_find_pi_mm` reports "found" exactly when the stored form of the
+lookup key is one of the node's keys, and the position it returns holds that key (so `iwkv_get`, `iwkv_del`, cursor `EQ` and the
+overwrite branch of `iwkv_put` address the right record). -/
+theorem node_find_pi_found_iff (compound : Bool) (n : KvNode.Node) (h : KvNode.NodeInv compound n) (k : Bytes) (c : Nat)
+    (hk : k ≠ []) (hc : c < 2 ^ 63) :
+    ((KvNode.findPi n (KvNode.cmpOf compound k c)).1 = true ↔ Cmp.stored compound k c ∈ KvNode.keys n) ∧
+    ((KvNode.findPi n (KvNode.cmpOf compound k c)).1 = true →
+      KvNode.keyAt n (KvNode.findPi n (KvNode.cmpOf compound k c)).2 = Cmp.stored compound k c) :=
+  KvNode.findPi_found_iff h k c hk hc
+
 /-! ### from the node invariant to the audit -/
 
 /-- the node image the reader yields for a model node stored in block `blk` (data block `kblk`, page slot `bpos`); level and links are
